@@ -280,6 +280,35 @@ func c18CaseVerifier(g *Gen) {
 	}
 }
 
+// deep tries: proofs of 63..97 elements (a branch at every nibble of a 31..48 byte key);
+// completeness and mutation at every depth, also on a reused verifier
+func c18CaseDeep(g *Gen) {
+	base, sibs := c17DeepKeys(g)
+	for _, i := range g.R.Perm(len(sibs)) {
+		g.Emit("set %s %s", hx(sibs[i]), hx(c17DeepVal(g)))
+	}
+	g.Emit("set %s %s", hx(base), hx(c17DeepVal(g)))
+	deepest := sibs[len(sibs)-1]
+	g.Emit("snap")
+	g.Emit("proof %s", hx(base))
+	g.Emit("prove %s", hx(base))
+	g.Emit("prove %s", hx(deepest))
+	g.Emit("prove %s", hx(sibs[g.Intn(len(sibs))]))
+	g.Emit("prove %s", hx(append(append([]byte{}, base...), byte(g.Intn(256)))))
+	g.Emit("pmut %s 0 %d %d %d -", hx(base), g.Intn(200), g.Intn(600), g.Intn(255))
+	g.Emit("pmut %s 1 %d 0 0 -", hx(base), g.Intn(200))
+	g.Emit("pmut %s 2 0 0 0 c0", hx(deepest))
+	g.Emit("vnew")
+	g.Emit("vprove %s", hx(base))
+	g.Emit("vflush")
+	g.Emit("vprove %s", hx(deepest))
+	g.Emit("vpmut %s 0 %d %d %d -", hx(base), g.Pick(0, 1, 63, 64, 65, g.Intn(100)), g.Intn(600), g.Intn(255))
+	if g.Intn(2) == 0 {
+		g.Emit("reload")
+		g.Emit("prove %s", hx(base))
+	}
+}
+
 func c18Gen(g *Gen) {
 	for i := 0; i < g.N; i++ {
 		g.Emit("reset")
@@ -287,6 +316,11 @@ func c18Gen(g *Gen) {
 			for j := g.Intn(8) + 1; j > 0; j-- {
 				c18Crafted(g)
 			}
+			continue
+		}
+		if i%50 == 7 || g.Intn(40) == 0 {
+			// deep tries are rare in random maps: scheduled so that every run has some
+			c18CaseDeep(g)
 			continue
 		}
 		if g.Intn(3) == 0 {
